@@ -17,6 +17,9 @@ CONSTANTS
   AllowEarly = FALSE
   TickInPrune = TRUE
   UntypedDedup = TRUE
+  DeriveFrom <- NoDerive
+  DeriveForget = FALSE
+  SnapFirst = FALSE
 VIEW View
 INVARIANTS AllReadable
 CHECK_DEADLOCK FALSE
